@@ -343,7 +343,72 @@ class History:
                 m(self, rec)
         if self.profile.get("queries") and self.rng.random() < self.profile["queries"]:
             self.random_queries()
+        if self.mode == "model" and self.rng.random() < self.profile.get("probes", 0.12):
+            self.probe()
         return tx
+
+    def probe(self):
+        """probe calls (never committed on either side): a handler followed by `reply` with an arbitrary
+        result for its first tracked sub-message -- undecodable data, no data, an error, any sequence --
+        or `reply` for an arbitrary id on the current store.  Model and implementation must agree on
+        outcome and error kind of both calls."""
+        r = self.rng
+        su = self.su
+        res = r.choice([{"ok": r.choice([0, 1, 7, 2 ** 63])}, {"ok_raw": "ff"}, {"ok_raw": ""}, {"ok_raw": "1005"},
+                        {"ok_raw": "0807"}, {"ok_nodata": True}, {"err": "channel closed"}])
+        req = {"op": "probe", "reply": res}
+        x = r.random()
+        if x < 0.45:
+            amt = r.choice([su.min_stake, 1000, 10 ** 6])
+            mt = r.choice([None, None, r.choice(su.native_users)])
+            req.update(sender=r.choice(su.users), funds=[coin(STAKED, amt)],
+                       msg={"liquid_stake": {"mint_to": mt, "transfer_to_native_chain": None, "expected_mint_amount": None}})
+        elif x < 0.6:
+            req.update(sender=r.choice(su.users), funds=[],
+                       msg={"recover_pending_ibc_transfers": {"paginated": r.choice([None, True]), "selected_packets": None, "receiver": None}})
+        elif x < 0.75:
+            try:
+                c = self.config()
+                who = bech32.hook_account(c["protocol_chain_config"]["ibc_channel_id"], c["native_chain_config"]["reward_collector_address"],
+                                          c["protocol_chain_config"]["account_address_prefix"])
+            except Exception:  # noqa: BLE001
+                who = su.hook_collector()
+            req.update(sender=who, funds=[coin(STAKED, r.choice([10, 1000, 10 ** 9]))], msg={"receive_rewards": {}})
+        else:
+            req["id"] = r.choice([0, 1, self.time, self.time + 1, r.randrange(2 ** 40)])
+        m = self.d.call(req)
+        self.h.env(self.time, self.height, 0)
+        self.h.call({"op": "snap"})
+        try:
+            out = {}
+            if "msg" in req:
+                eh = self.h.call({"op": "execute", "sender": req["sender"], "funds": req["funds"], "msg": req["msg"]})
+                out["execute"] = eh
+                if "ok" in eh:
+                    tracked = [mm for mm in eh["ok"].get("messages", []) if mm.get("reply_on") == "always"]
+                    if tracked:
+                        out["reply_id"] = tracked[0]["id"]
+                        out["reply"] = self.h.call({"op": "reply", "id": tracked[0]["id"], "result": res})
+            else:
+                out["reply"] = self.h.call({"op": "reply", "id": req["id"], "result": res})
+        finally:
+            self.h.call({"op": "rollback"})
+        self.stats.calls += 1
+        for k in ("execute", "reply"):
+            a, b = m.get(k), out.get(k)
+            if (a is None) != (b is None):
+                raise Divergence("probe." + k, {"probe": req, "model": m, "impl": out})
+            if a is None:
+                continue
+            self.stats.bump(self.stats.by_outcome, "probe_%s:%s" % (k, outcome(b)))
+            self.stats.signatures.add(("probe", k, outcome(b), err_kind(b), next(iter(res))))
+            if outcome(a) != outcome(b) or (outcome(a) == "err" and err_kind(a) != err_kind(b)):
+                raise Divergence("probe." + k, {"probe": req, "model": m, "impl": out})
+            if outcome(b) == "panic":
+                self.findings.append({"property": "C16", "monitor": "no_panic", "signature": {"entry": k, "variant": "probe", "site": "probe"},
+                                      "what": "%s panics in a probe: %s" % (k, b.get("panic", "")[:120]), "upto": len(self.events), "event": req})
+        if m.get("reply_id") != out.get("reply_id"):
+            raise Divergence("probe.reply_id", {"probe": req, "model": m, "impl": out})
 
     def random_queries(self):
         """C17: random (start_after, limit, status) triples, id lists and users; model vs implementation,
